@@ -189,7 +189,8 @@ class InstanceRun:
         exe = os.path.join(self.dir, "native")
         srcs = [os.path.join(HARN, i.harness)] + [os.path.join(ENV, e) for e in i.native_src]
         self.write_gen()
-        cmd = NATIVE_BASE + ["-I" + self.dir] + dflags(i.defines) + srcs + ["-o", exe, "-lm"]
+        scale = ["-include", os.path.join(ENV, "scale_native.h")] if "V_BUFSIZ" in i.defines else []
+        cmd = NATIVE_BASE + scale + ["-I" + self.dir] + dflags(i.defines) + srcs + ["-o", exe, "-lm"]
         rc, out, err, t = run(cmd, timeout=300)
         if rc != 0:
             self.native_err = err[-3000:]
